@@ -910,7 +910,8 @@ func genMain(args []string) {
 					}
 					c["yd"] = M{"sg": sg, "ds": ds, "e": 0}
 				} else {
-					y["e"] = 9 + g.r.Intn(12)
+					// far more than the limit of ten million items (never a size that is allowed but takes minutes)
+					c["yd"] = M{"sg": 1, "ds": x["ds"], "e": x["e"].(int) + 9 + g.r.Intn(12)}
 				}
 			}
 			if g.r.Intn(5) == 0 {
